@@ -196,6 +196,7 @@ func (a *ancestorQuery) Select(t iterator) NodeNavigator {
 func (a *ancestorQuery) Evaluate(t iterator) interface{} {
 	a.Input.Evaluate(t)
 	a.iterator = nil
+	a.table = nil
 	return a
 }
 
@@ -580,6 +581,7 @@ func (f *followingQuery) Select(t iterator) NodeNavigator {
 
 func (f *followingQuery) Evaluate(t iterator) interface{} {
 	f.Input.Evaluate(t)
+	f.iterator = nil
 	return f
 }
 
@@ -669,6 +671,7 @@ func (p *precedingQuery) Select(t iterator) NodeNavigator {
 
 func (p *precedingQuery) Evaluate(t iterator) interface{} {
 	p.Input.Evaluate(t)
+	p.iterator = nil
 	return p
 }
 
@@ -830,6 +833,8 @@ func (f *filterQuery) Select(t iterator) NodeNavigator {
 
 func (f *filterQuery) Evaluate(t iterator) interface{} {
 	f.Input.Evaluate(t)
+	f.posit = 0
+	f.positmap = nil
 	return f
 }
 
@@ -955,6 +960,7 @@ func (g *groupQuery) Select(t iterator) NodeNavigator {
 }
 
 func (g *groupQuery) Evaluate(t iterator) interface{} {
+	g.posit = 0
 	return g.Input.Evaluate(t)
 }
 
@@ -1302,6 +1308,7 @@ func (d *descendantOverDescendantQuery) Select(t iterator) NodeNavigator {
 
 func (d *descendantOverDescendantQuery) Evaluate(t iterator) interface{} {
 	d.Input.Evaluate(t)
+	d.level = 0
 	return d
 }
 
@@ -1362,6 +1369,7 @@ func (m *mergeQuery) Select(t iterator) NodeNavigator {
 
 func (m *mergeQuery) Evaluate(t iterator) interface{} {
 	m.Input.Evaluate(t)
+	m.iterator = nil
 	return m
 }
 
